@@ -29,6 +29,7 @@ type Stats struct {
 	Fallbacks           int
 	Cvc5                int
 	CacheHits           int
+	BadModels           int
 }
 
 // Solver drives one long-lived SMT-LIB2 solver process over a pipe.
